@@ -308,7 +308,9 @@ pub fn run(rep: &Report) {
         Tier::Thorough => (300u64, 120u64, 30u64),
     };
     // fault-free probe of every history
-    let probes: Vec<u64> = {
+    let probes: Vec<u64> = if rep.replay_only.is_some() {
+        (0..n_hist).map(|h| run_faulted(rep.seed, h, None, false).calls).collect()
+    } else {
         let v = std::sync::Mutex::new(vec![0u64; n_hist as usize]);
         run_cases(
             rep,
@@ -345,8 +347,13 @@ pub fn run(rep: &Report) {
                 rep.violation(format!("fault:{}", short_sig(e)), format!("history {h} {spec:?}: {e}; trace tail {:?}", tail(&o.trace)), r.clone());
             }
             rep.eval(1);
+            return;
         }
-        return;
+        if r.get("case_index").is_none() {
+            return;
+        }
+        // replay by index into the case list (abort triage): falls through to run_cases below,
+        // which runs exactly r["case"]
     }
     // build the list of faulted cases
     let mut cases: Vec<(u64, FaultSpec)> = vec![];
